@@ -76,6 +76,67 @@ def m_empty_seq(it, a, ty, callee):
     return Seq((), 'vec')
 
 
+class IoErr(Model):
+    """std::io::Error: only its ErrorKind is modelled"""
+    __slots__ = ('kind',)
+    rust_type = 'std::io::Error'
+
+    def __init__(self, kind):
+        self.kind = kind
+
+    def __repr__(self):
+        return 'io::Error(%s)' % self.kind
+
+
+def _kind_text(v):
+    t = getattr(v, 'what', None) or repr(v)
+    return t.rsplit('::', 1)[-1]
+
+
+def m_ioerr_new(it, a, ty, callee):
+    return IoErr(_kind_text(a[0]))
+
+
+def m_ioerr_kind(it, a, ty, callee):
+    e = deref(it, a[0])
+    if isinstance(e, IoErr):
+        return Extern('std::io::ErrorKind::' + e.kind)
+    return Extern('std::io::ErrorKind::Other')
+
+
+def m_kind_eq(it, a, ty, callee):
+    r = _kind_text(deref(it, a[0])) == _kind_text(deref(it, a[1]))
+    return (not r) if callee.endswith('::ne') else r
+
+
+def m_panic(it, a, ty, callee):
+    from ..interp import Violation
+    msg = ''
+    for x in a:
+        if isinstance(x, Extern) and x.what.startswith('fmt:'):
+            msg = x.what[4:]
+        elif isinstance(x, Ptr):
+            try:
+                v = it.load(x)
+                if isinstance(v, Seq) and all(getattr(b, 'conc', False) for b in v.fields):
+                    msg = bytes(b.v for b in v.fields).decode(errors='replace')
+            except Exception:
+                pass
+    raise Violation('panic', 'explicit panic: %s (%s)' % (msg[:80], callee.split('::')[-1]), it.current_model())
+
+
+def m_fmt_args(it, a, ty, callee):
+    txt = ''
+    if a and isinstance(a[0], Ptr):
+        try:
+            v = it.load(a[0])
+            if isinstance(v, Seq) and all(getattr(b, 'conc', False) for b in v.fields):
+                txt = bytes(b.v for b in v.fields).decode(errors='replace')
+        except Exception:
+            pass
+    return Extern('fmt:' + txt)
+
+
 def m_extern(tag):
     def f(it, a, ty, callee):
         return Extern(tag)
@@ -95,12 +156,18 @@ def m_random_peer(it, a, ty, callee):
 
 def install(it):
     A = it.add_model
+    A(r"std::fmt::Arguments::<'_>::(from_str|new_const|new_v1|new|from_str_nonconst)(::<.*>)?", m_fmt_args)
+    A(r'(core|std)::panicking::(panic_fmt|panic|panic_display|panic_explicit|panic_nounwind|begin_panic)(::<.*>)?', m_panic)
+    A(r'std::rt::(panic_fmt|begin_panic)(::<.*>)?', m_panic)
     A(r'peer_id::PeerId::random', m_random_peer)
     A(r"<std::string::String as std::convert::From<std::borrow::Cow<'_, str>>>::from", lambda it, a, ty, c: a[0])
     A(r'std::net::SocketAddr::new', lambda it, a, ty, c: Adt('std::net::SocketAddr', 0, [a[0], a[1]]))
     A(r'<.* as std::string::ToString>::to_string', m_extern('string'))
-    A(r'std::io::Error::new::<.*>', m_extern('io-error'))
-    A(r'<std::io::Error as std::convert::From<std::io::ErrorKind>>::from', m_extern('io-error'))
+    A(r'std::io::Error::new::<.*>', m_ioerr_new)
+    A(r'std::io::Error::other::<.*>', lambda it, a, ty, c: IoErr('Other'))
+    A(r'std::io::Error::kind', m_ioerr_kind)
+    A(r'<std::io::ErrorKind as std::cmp::PartialEq>::(eq|ne)', m_kind_eq)
+    A(r'<std::io::Error as std::convert::From<std::io::ErrorKind>>::from', m_ioerr_new)
     A(r'<(?:u\d+|i\d+|usize|isize|bool|std::option::Option<.*>|std::vec::Vec<.*>|std::collections::\w+<.*>|std::string::String|indexmap::IndexMap<.*>|std::sync::Arc<.*>|parking_lot::lock_api::(?:RwLock|Mutex)<.*>) as std::default::Default>::default', m_default)
     A(r'tokio::sync::mpsc::channel::<.*>', m_channel)
     A(r'std::sync::Arc::<.*>::new', m_arc_new)
